@@ -1902,6 +1902,38 @@ def generate_algkern(fns, gen_dir, write_if_changed):
             doc = "\n".join("      " + l for l in nfkc(ast.unparse(stmts[i])).splitlines())
             out.append(f"/-- the loop of `Modes.{name}`" + (" with `c = s` (in place)" if inplace else " with `c = np.zeros_like(s)`") + f":\n\n{doc} -/\n" + txt)
             sig[k.name] = [(p, k.kinds[p]) for p in k.params]
+    # ---- the `np.conj` / `np.conjugate` branch of Modes.__array_ufunc__ (spherical/modes/ufuncs.py): the same loop on `args[0]` -------
+    utree = ast.parse(open(os.path.join(REPO, "spherical/modes/ufuncs.py"), encoding="utf-8").read())
+    fdu = find_function(utree, "__array_ufunc__")
+    branch = None
+    for n in ast.walk(fdu):
+        if isinstance(n, ast.If) and nfkc(ast.unparse(n.test)) == "ufunc in [np.conj, np.conjugate]":
+            branch = n
+    if branch is None or not (len(branch.body) == 1 and isinstance(branch.body[0], ast.If) and nfkc(ast.unparse(branch.body[0].test)) == "isinstance(args[0], type(self))"):
+        raise TranslationError("ufuncs.__array_ufunc__: conjugation branch not found")
+    ub = branch.body[0].body
+    if [nfkc(ast.unparse(x)) for x in ub[:2]] != ["s = args[0].view(np.ndarray)", "c = np.zeros_like(s) if out is None else out[0]"] or not isinstance(ub[2], ast.For):
+        raise TranslationError("ufuncs.__array_ufunc__: conjugation branch prelude")
+
+    class A0(ast.NodeTransformer):       # args[0].attr -> self.attr
+        def visit_Attribute(self, node):
+            node = self.generic_visit(node)
+            if nfkc(ast.unparse(node.value)) == "args[0]":
+                return ast.Attribute(value=ast.Name(id="self", ctx=ast.Load()), attr=node.attr, ctx=node.ctx)
+            return node
+    uloop = A0().visit(_copy.deepcopy(ub[2]))
+    for inplace in (False, True):
+        loop = _AlgRewrite(inplace).visit(_copy.deepcopy(uloop))
+        ast.fix_missing_locations(loop)
+        arrs = ["s"] if inplace else ["s", "c"]
+        lname = "Modes_conjugate_ufunc" + ("_out_is_operand" if inplace else "") + "_loop"
+        fdk = ast.parse(f"def {lname}({', '.join(arrs + ['self_ell_max', 'self_ell_min', 'self_spin_weight'])}):\n    pass\n").body[0]
+        fdk.body = [loop]
+        ast.fix_missing_locations(fdk)
+        k, txt = KTr(fns, {}, set(), fdk, complex_arrays=set(arrs)).translate(lean_name=lname)
+        out.append("/-- the loop of the `np.conjugate` branch of `Modes.__array_ufunc__`" + (" with `out[0]` the operand itself" if inplace else " with a fresh output or another array as `out[0]`")
+                   + " (`args[0].<attr>` written `self.<attr>`) -/\n" + txt)
+        sig[k.name] = [(p, k.kinds[p]) for p in k.params]
     out.append("end\nend Gen\n")
     write_if_changed(os.path.join(gen_dir, "AlgKern.lean"), "\n".join(out))
     return sig
